@@ -523,6 +523,24 @@ def call_type(I, t, args, kwargs):
         if not args:
             return stamp(Seq(n, []))
         v = args[0]
+        if isinstance(v, Opaque) and v.tag == 'symset':
+            # list(set(a)) for a 1-d array a of symbolic length: the U distinct values of a in an unspecified order
+            fa, na, kind_ = v.payload
+            c = I.ctx
+            U = c.fresh_int('n_unique')
+            uq = c.fresh_fn('unique', z3.IntSort(), z3.IntSort() if kind_ == 'int' else z3.RealSort())
+            wit = c.fresh_fn('unique_at', z3.IntSort(), z3.IntSort())
+            pos = c.fresh_fn('unique_pos', z3.IntSort(), z3.IntSort())
+            j, j2, i_ = z3.Ints('uq_j uq_j2 uq_i')
+            c.assume(z3.And(0 <= U, U <= na, z3.Implies(na >= 1, U >= 1)))
+            c.assume(z3.ForAll([j], z3.Implies(z3.And(0 <= j, j < U), z3.And(0 <= wit(j), wit(j) < na, fa(wit(j)) == uq(j))), patterns=[uq(j)]))
+            c.assume(z3.ForAll([i_], z3.Implies(z3.And(0 <= i_, i_ < na), z3.And(0 <= pos(i_), pos(i_) < U, uq(pos(i_)) == fa(i_))), patterns=[pos(i_)]))
+            c.assume(z3.ForAll([j, j2], z3.Implies(z3.And(0 <= j, j < j2, j2 < U), uq(j) != uq(j2)), patterns=[z3.MultiPattern(uq(j), uq(j2))]))
+            c.use_axiom('set(a) of an array: its distinct values (iteration order unspecified)')
+            r = stamp(SymSeq(n, I.mk(U, 'int'), lambda I_, k_, uq=uq, kind_=kind_: SV(uq(k_), kind_, True)))
+            r.no_raise = True
+            r.unique_of = (uq, wit, pos, U)
+            return r
         if isinstance(v, SymSeq) and not isinstance(v.n, int):
             r = stamp(SymSeq(n, v.n, v.fn, list(v.overlays)))
             r.map_of = getattr(v, 'map_of', None)
@@ -558,6 +576,10 @@ def call_type(I, t, args, kwargs):
     if n == 'object':
         return Opaque('object')
     if n in ('set', 'frozenset'):
+        if args and isinstance(args[0], NDArr) and args[0].ndim == 1 and not isinstance(args[0].shape[0], int) \
+                and args[0].dtype in ('int', 'uint', 'float'):
+            a0 = args[0]
+            return Opaque('symset', (a0.fn, I.np.dim_z(a0.shape[0]), 'int' if a0.dtype != 'float' else 'real'))
         items = I.iterate_concrete(args[0]) if args else []
         out = []
         for x in items:
